@@ -227,8 +227,9 @@ def menu(proc, seed, tier="quick", ops=None, include_unsafe=False):
     for g in gaps:
         add("insert_pass", g)
         add("fission", g)
-        if thorough:
+        if len(g["p"]) >= 2:
             add("fission", g, 2)
+        if thorough:
             add("autofission", g, 2)
         if include_unsafe:
             add("fission", g, 1, unsafe_disable_checks=True)
